@@ -463,3 +463,12 @@ Proof.
   cbv zeta in S0. unfold prepend; cbn. exact S0.
 Qed.
 End Top.
+
+(* the instance that the source implements: the candidate is clipped to the bounds *)
+Lemma in_bounds_clipped_R :
+  forall (res : list R -> list R) (qp : nat -> list (list R) -> list R -> list R -> list R -> option (list R))
+         (box : list (Bnd (T:=R))) (Dfix : list R) (adaptive : bool)
+         (eps mu_min mu_max mu_factor xtol gtol : R) (inner_fuel max_iter : nat) (x0 : list R),
+    problem_ok box Dfix eps x0 -> qp_contract qp ->
+    concl_in_bounds box (least_squares res qp box Dfix adaptive true eps mu_min mu_max mu_factor xtol gtol inner_fuel max_iter x0).
+Proof. intros. apply in_bounds_R; assumption. Qed.
